@@ -94,6 +94,8 @@ STMTS = [
     ("goto (10, 20) i", []), ("go to (10,20), i", []),
     ("call obj%run()", ["run"]), ("CALL OBJ % RUN ( )", ["run"]), ("x = obj%getv()", ["getv"]), ("x = obj%c", []),
     ("allocate(arr2(pick(x)))", ["pick"]), ("if (allocated(arr2)) deallocate(arr2)", []),
+    ("write(*,'(a,i0)') 'baz(2) = ', i", []), ("x = len('abcdefgh' // 'call foo(bar(1))')", []),
+    ("print *, 'Value of i:', i, 'and baz(1):', bar(y)", ["bar"]), ("print *, \"it's\", 'chk(x)', foo_text", []),
     ("x = bar(y); call foo(x)", ["bar", "foo"]),
     ("call foo(x) ; call foo(y)", ["foo"]),
 ]
@@ -178,7 +180,8 @@ def _calls_ob(name, lo, hi):
 _calls_ob("call-and-function", 0, 13)
 _calls_ob("control-headers", 11, 23)
 _calls_ob("io-literals-format-goto", 22, 32)
-_calls_ob("bound-alloc-multi", 30, len(STMTS))
+_calls_ob("bound-alloc-multi", 30, 39)
+_calls_ob("several-literals", 36, len(STMTS))
 
 
 # ---------------------------------------------------------------------------------------
